@@ -144,11 +144,19 @@ impl C07 {
                 // value does not fit
                 let cands: Vec<&View> = self.views.iter().filter(|v| v.bits == bits).collect();
                 let v = **rng.pick(&cands);
-                let val = match rng.below(3) {
+                let val = match rng.below(6) {
                     0 => 1u64 << bits,
                     1 => u64::MAX,
+                    // a single excess bit anywhere above the view, the rest in range
+                    2 => (1u64 << rng.range(bits as u64, 63)) | (rng.next() & mask(bits)),
+                    // excess bits only in the top byte / top word / top dword (everything between is zero)
+                    3 => (rng.range(1, 0xff) << 56) | (rng.next() & mask(bits)),
+                    4 => ((rng.next() | 1) << (64 - *rng.pick(&[8u32, 16, 32]).min(&(64 - bits)))) | (rng.next() & mask(bits)),
                     _ => (rng.val() | (1u64 << bits)) & !mask(bits) | (rng.next() & mask(bits)),
                 };
+                if val <= mask(bits) {
+                    continue;
+                }
                 desc = format!("write{}({:?}, {:#x}) [value does not fit]", bits, v.reg, val);
                 expect_reject = true;
                 res = api_write(&mut ax, bits, v.reg, val);
